@@ -451,6 +451,9 @@ fn report_none(_: &AnnotationStore) -> Sx {
 fn report_annotations(st: &AnnotationStore) -> Sx {
     l(vec![a(0), a(st.annotations_len() as i64), l(st.annotations().map(|x| a(x.handle().as_usize() as i64)).collect())])
 }
+fn report_data_count(st: &AnnotationStore) -> Sx {
+    l(vec![a(0), a(st.dataset("s").map(|ds| ds.data().count()).unwrap_or(0) as i64)])
+}
 fn report_data(st: &AnnotationStore) -> Sx {
     match st.dataset("s") {
         Some(ds) => l(vec![a(0), a(ds.as_ref().data_len() as i64), l(ds.data().map(|x| a(x.handle().as_usize() as i64)).collect())]),
@@ -636,6 +639,21 @@ fn prepare(req: &Sx, dir: &str, cache: &mut Cache) -> Case {
         10 => prepare_files(req, dir),
         11 => prepare_ann_offset(req, dir),
         13 => prepare_merge(req, dir),
+        16 => {
+            let n = req.nth(2).int().max(0) as usize;
+            let head = r#"{"@type":"AnnotationStore","@id":"c19","resources":[{"@type":"TextResource","@id":"r","text":"abcdefghij"}],"annotationsets":[{"@type":"AnnotationDataSet","@id":"s","keys":[{"@type":"DataKey","@id":"k"}]}]"#;
+            let anns: Vec<String> = (0..n)
+                .map(|i| format!(r#"{{"@type":"Annotation","@id":"a{}","target":{{"@type":"ResourceSelector","resource":"r"}},"data":[{{"@type":"AnnotationData","@id":"","set":"s","key":"k{}","value":{{"@type":"Int","value":{}}}}}]}}"#, i, i % 2, i))
+                .collect();
+            if req.nth(1).int() == 0 {
+                let doc = format!(r#"{},"annotations":[{}]}}"#, head, anns.join(","));
+                let len = doc.len();
+                Case { load: Load::JsonStr(doc, cfgd()), input_bytes: len, report: report_data_count, probe: true, note: "empty_id_store" }
+            } else {
+                write_file(dir, "more.json", format!("[{}]", anns.join(",")).as_bytes());
+                Case { load: Load::AnnotateFile(format!("{}}}", head), format!("{}/more.json", dir)), input_bytes: 400 + 200 * n, report: report_data_count, probe: true, note: "empty_id_file" }
+            }
+        }
         14 => {
             // with_file() of a STAM CSV store on a non-empty (0) / empty (1) store
             csv_fixture(dir);
@@ -700,7 +718,14 @@ fn prepare(req: &Sx, dir: &str, cache: &mut Cache) -> Case {
 fn prepare_ann_offset(req: &Sx, dir: &str) -> Case {
     let mode = req.nth(1).int();
     let tkind = req.nth(2).int();
-    let (b, e) = (req.nth(3).int(), req.nth(4).int());
+    // an offset value is a small number or a decimal string
+    let val = |x: &Sx| -> String {
+        match x {
+            Sx::A(z) => z.to_string(),
+            Sx::L(_) => x.string(),
+        }
+    };
+    let (b, e) = (val(req.nth(3)), val(req.nth(4)));
     let text = |b: i64, e: i64| format!(r#"{{"@type":"TextSelector","resource":"r","offset":{{"@type":"Offset","begin":{{"@type":"BeginAlignedCursor","value":{}}},"end":{{"@type":"BeginAlignedCursor","value":{}}}}}}}"#, b, e);
     let res = |r: &str| format!(r#"{{"@type":"ResourceSelector","resource":"{}"}}"#, r);
     let dset = r#"{"@type":"DataSetSelector","annotationset":"s"}"#.to_string();
@@ -712,6 +737,7 @@ fn prepare_ann_offset(req: &Sx, dir: &str) -> Case {
         4 => r#"{"@type":"AnnotationSelector","annotation":"A0"}"#.to_string(),
         5 => text(0, 5),
         6 => r#"{"@type":"AnnotationSelector","annotation":"A0","offset":{"@type":"Offset","begin":{"@type":"BeginAlignedCursor","value":1},"end":{"@type":"BeginAlignedCursor","value":3}}}"#.to_string(),
+        10 => text(2, 7),
         7 => format!(r#"{{"@type":"CompositeSelector","selectors":[{},{}]}}"#, text(0, 2), text(6, 8)),
         8 => format!(r#"{{"@type":"MultiSelector","selectors":[{},{}]}}"#, res("r"), dset),
         _ => format!(r#"{{"@type":"DirectionalSelector","selectors":[{},{}]}}"#, text(0, 2), res("r2")),
@@ -744,6 +770,7 @@ fn prepare_ann_offset(req: &Sx, dir: &str) -> Case {
                 4 => "A1,D0,s,AnnotationSelector,,A0,,,,,",
                 5 => "A1,D0,s,TextSelector,r,,,0,5,,",
                 6 => "A1,D0,s,AnnotationSelector,,A0,,1,3,,",
+                10 => "A1,D0,s,TextSelector,r,,,2,7,,",
                 7 => "A1,D0,s,CompositeSelector;TextSelector;TextSelector,;r;r,;;,;;,;0;6,;2;8,,",
                 8 => "A1,D0,s,MultiSelector;ResourceSelector;DataSetSelector,;r;,;;,;;s,;;,;;,,",
                 _ => "A1,D0,s,DirectionalSelector;TextSelector;ResourceSelector,;r;r2,;;,;;,;0;,;2;,,",
@@ -1240,7 +1267,7 @@ pub fn run_batch(reqs: &[Sx]) -> Vec<Obs> {
 /// the observations of one request as the driver expects them
 fn outputs(req: &Sx, o: &Obs) -> Vec<Sx> {
     match inner(req).nth(0).int() {
-        1 | 2 | 7 | 8 | 9 | 11 | 13 => vec![l(vec![a(o.safety)]), if matches!(o.safety, 1 | 2 | 3) { l(vec![a(9)]) } else { o.result.clone() }],
+        1 | 2 | 7 | 8 | 9 | 11 | 13 | 16 => vec![l(vec![a(o.safety)]), if matches!(o.safety, 1 | 2 | 3) { l(vec![a(9)]) } else { o.result.clone() }],
         3 => vec![if o.safety == 1 { l(vec![a(-1)]) } else if o.safety == 2 { l(vec![a(-2)]) } else if o.safety != 0 { l(vec![a(-(o.safety))]) } else { o.result.clone() }],
         _ => vec![l(vec![a(o.safety)])],
     }
@@ -1316,7 +1343,7 @@ fn distinct_public(req: &Sx) -> bool {
     for arr in arrays.list() {
         for e in arr.list() {
             if let Some(id) = ostring(e.nth(0)) {
-                if !(strip && is_temp(&id)) && !seen.insert(id) {
+                if !id.is_empty() && !(strip && is_temp(&id)) && !seen.insert(id) {
                     return false;
                 }
             }
@@ -1407,6 +1434,20 @@ pub fn generate(out: &mut Out, tier: &str, seed: u64) {
     for s in bounds {
         emit0(out, 0, s, "cursor_bounds");
     }
+    // long strings with a multi-byte character at every byte position around 10..30
+    let mut long_cursors: Vec<String> = Vec::new();
+    for sign in ["", "-", "+"] {
+        for ch in ["\u{e9}", "\u{20ac}", "\u{1d400}", "x"] {
+            for pos in 8..30usize {
+                let digits: String = (0..pos).map(|i| (b'0' + ((i + 1) % 10) as u8) as char).collect();
+                long_cursors.push(format!("{}{}{}", sign, digits, ch));
+                long_cursors.push(format!("{}{}{}12345", sign, digits, ch));
+            }
+        }
+    }
+    for s in &long_cursors {
+        emit0(out, 0, s, "cursor_long_nonascii");
+    }
     for _ in 0..(if thorough { 20000 } else { 3000 }) {
         let n = 1 + rng.below(24);
         let mut s = String::new();
@@ -1470,7 +1511,7 @@ pub fn generate(out: &mut Out, tier: &str, seed: u64) {
     // ---- documents (child processes)
     let mut reqs: Vec<(Sx, String)> = Vec::new();
     // (1) annotations arrays: exhaustive small scope
-    let ids: Vec<Option<String>> = vec![None, Some("p".into()), Some("!A0".into()), Some("!A1".into()), Some("!A2".into()), Some("!A4".into()), Some("!\u{c9}1".into()), Some("!A".into()), Some("!a1".into()), Some("!R+3".into())];
+    let ids: Vec<Option<String>> = vec![None, Some("p".into()), Some("!A0".into()), Some("!A1".into()), Some("!A2".into()), Some("!A4".into()), Some("!\u{c9}1".into()), Some("!A".into()), Some("!a1".into()), Some("!R+3".into()), Some("".into())];
     let mut uniq = 0usize;
     let mut fresh = |id: &Option<String>| -> Option<String> {
         // public ids must be distinct within a document
@@ -1490,7 +1531,7 @@ pub fn generate(out: &mut Out, tier: &str, seed: u64) {
                     reqs.push((l(vec![a(1), a(strip), a(base), l(vec![l(vec![elem(&fresh(i1), b1, &[])])])]), "ann_1".into()));
                 }
                 for i2 in &ids {
-                    if i1.is_some() && i1 == i2 && i1.as_deref() != Some("p") && (strip == 0 || !i1.as_deref().unwrap_or("").starts_with("!A") || i1.as_deref() == Some("!A")) {
+                    if i1.is_some() && i1 == i2 && i1.as_deref() != Some("p") && i1.as_deref() != Some("") && (strip == 0 || !i1.as_deref().unwrap_or("").starts_with("!A") || i1.as_deref() == Some("!A")) {
                         continue; // the same public id twice: duplicate handling is not C19's business
                     }
                     // two elements in one array, and one element in each of two arrays
@@ -1498,7 +1539,7 @@ pub fn generate(out: &mut Out, tier: &str, seed: u64) {
                     reqs.push((l(vec![a(1), a(strip), a(base), l(vec![l(vec![elem(&fresh(i1), true, &[])]), l(vec![elem(&fresh(i2), true, &[])])])]), "ann_1_1".into()));
                     if thorough || rng.chance(1, 4) {
                         for i3 in &ids {
-                            if (i3.is_some() && (i3 == i1 || i3 == i2)) && i3.as_deref() != Some("p") && (strip == 0 || !i3.as_deref().unwrap_or("").starts_with("!A") || i3.as_deref() == Some("!A")) {
+                            if (i3.is_some() && (i3 == i1 || i3 == i2)) && i3.as_deref() != Some("p") && i3.as_deref() != Some("") && (strip == 0 || !i3.as_deref().unwrap_or("").starts_with("!A") || i3.as_deref() == Some("!A")) {
                                 continue;
                             }
                             reqs.push((l(vec![a(1), a(strip), a(base), l(vec![l(vec![elem(&fresh(i1), true, &[]), elem(&fresh(i2), rng.chance(5, 6), &[])]), l(vec![elem(&fresh(i3), true, &[])])])]), "ann_2_1".into()));
@@ -1539,14 +1580,14 @@ pub fn generate(out: &mut Out, tier: &str, seed: u64) {
         }
     }
     // (2) data arrays
-    let dids: Vec<Option<String>> = vec![None, Some("p".into()), Some("!D0".into()), Some("!D1".into()), Some("!D3".into()), Some("!\u{c9}1".into()), Some("!D".into())];
+    let dids: Vec<Option<String>> = vec![None, Some("p".into()), Some("!D0".into()), Some("!D1".into()), Some("!D3".into()), Some("!\u{c9}1".into()), Some("!D".into()), Some("".into())];
     for strip in [1i64, 0] {
         for i1 in &dids {
             for b1 in [true, false] {
                 reqs.push((l(vec![a(2), a(strip), l(vec![l(vec![l(vec![id_sx(&fresh(i1)), a(b1 as i64)])])])]), "data_1".into()));
             }
             for i2 in &dids {
-                if i1.is_some() && i1 == i2 && i1.as_deref() != Some("p") && (strip == 0 || i1.as_deref() == Some("!D")) {
+                if i1.is_some() && i1 == i2 && i1.as_deref() != Some("p") && i1.as_deref() != Some("") && (strip == 0 || i1.as_deref() == Some("!D")) {
                     continue;
                 }
                 reqs.push((l(vec![a(2), a(strip), l(vec![l(vec![l(vec![id_sx(&fresh(i1)), a(1)]), l(vec![id_sx(&fresh(i2)), a(1)])])])]), "data_2".into()));
@@ -1600,6 +1641,17 @@ pub fn generate(out: &mut Out, tier: &str, seed: u64) {
         }
         reqs.push((row(["X", "", "s", k, "r", "A0", "s", "0", "3", "k", "D0"]), "csv_nodata".into()));
         reqs.push((row(["", "D0;D1", "s;s", k, "r", "A0", "s", "0", "3", "k", "D0"]), "csv_simple".into()));
+    }
+    // cursor cells with long non-ASCII garbage
+    for (i, c) in long_cursors.iter().enumerate() {
+        if !thorough && i % 4 != 0 {
+            continue;
+        }
+        match i % 3 {
+            0 => reqs.push((row(["X", "D0", "s", "TextSelector", "r", "", "", c, "3", "", ""]), "csv_cursor_garbage".into())),
+            1 => reqs.push((row(["X", "D0", "s", "AnnotationSelector", "", "A0", "", "0", c, "", ""]), "csv_cursor_garbage".into())),
+            _ => reqs.push((row(["X", "D0", "s", "CompositeSelector;TextSelector;AnnotationSelector", ";r;", ";;A0", ";;", &format!(";0;{}", c), &format!(";{};3", c), "", ""]), "csv_cursor_garbage".into())),
+        }
     }
     let complex = ["CompositeSelector", "MultiSelector", "DirectionalSelector", "multi"];
     let subs = ["TextSelector", "AnnotationSelector", "ResourceSelector", "DataSetSelector", "DataKeySelector", "AnnotationDataSelector", "MultiSelector", "bogus"];
@@ -1715,10 +1767,20 @@ pub fn generate(out: &mut Out, tier: &str, seed: u64) {
     reqs.push((l(vec![a(14), a(1)]), "with_file_csv".into()));
     // (11) an annotation selector with offset on annotations of every target kind
     for mode in 0..3i64 {
-        for tkind in 0..10i64 {
+        for tkind in 0..11i64 {
             for (b, e) in [(0i64, 1i64), (0, 2), (1, 2), (0, 5), (2, 6), (3, 1), (0, 0), (0, 11)] {
                 reqs.push((l(vec![a(11), a(mode), a(tkind), a(b), a(e)]), "ann_offset".into()));
             }
+            // huge relative cursors (the parent may begin after position 0)
+            for (b, e) in [("18446744073709551615", "18446744073709551615"), ("0", "18446744073709551615"), ("18446744073709551615", "1"), ("18446744073709551614", "18446744073709551615"), ("9223372036854775808", "9223372036854775809"), ("1", "9223372036854775807"), ("18446744073709551616", "1"), ("4294967296", "4294967297")] {
+                reqs.push((l(vec![a(11), a(mode), a(tkind), sid(b), sid(e)]), "ann_offset_huge".into()));
+            }
+        }
+    }
+    // (16) inline data whose "@id" is the empty string
+    for mode in 0..2i64 {
+        for n in [1i64, 2, 3, 5] {
+            reqs.push((l(vec![a(16), a(mode), a(n)]), "empty_data_id".into()));
         }
     }
     // (8) scaling: n and 4n annotations with inline data
